@@ -95,7 +95,7 @@ def check_value(p, v, cfg_name, col):
         col.nt(p.key + vsrc + cfg_name)
         if len(vsrc) < 200:
             col.sample({"T": mat.root_expr, "v": vsrc, "cfg": cfg_name})
-    amb = ambiguity(spec, v, mat) if U.has_kind(spec, "union") else None
+    amb = ambiguity(spec, v, mat) if U.has_kind(spec, "union", "optional") else None
 
     def case():
         c = p.case(value=vsrc, cfg=cfg_name)
